@@ -95,10 +95,10 @@ __CPROVER_assigns(*g_w, g_ready_seen, g_sleeps)
 __CPROVER_ensures(g_ready_seen && (*g_w & READY))
 ;
 //@loop FC_wait_slow 1
-//@  __CPROVER_assigns(@l1@, *g_w, g_ready_seen, g_sleeps)
-//@  __CPROVER_loop_invariant(((@l1@ & READY) != 0) == g_ready_seen)
+//@  __CPROVER_assigns(@l1:value@, *g_w, g_ready_seen, g_sleeps)
+//@  __CPROVER_loop_invariant(((@l1:value@ & READY) != 0) == g_ready_seen)
 //@  __CPROVER_loop_invariant(!g_ready_seen || (*g_w & READY))
-//@  __CPROVER_loop_invariant(g_ready_seen || ((@l1@ & ~READY) >= 1 && (*g_w & READY || (*g_w & ~READY) >= 1)))
+//@  __CPROVER_loop_invariant(g_ready_seen || ((@l1:value@ & ~READY) >= 1 && (*g_w & READY || (*g_w & ~READY) >= 1)))
 //@end
 
 /* wait_for_slow(timeout): returns true only if READY was observed (stable).  The other half of C08's clause -- "false only if
@@ -114,10 +114,10 @@ __CPROVER_ensures(__CPROVER_return_value ==> (g_ready_seen && (*g_w & READY)))
 __CPROVER_ensures(!__CPROVER_return_value ==> (g_clock_failed || g_clock_reads >= 2))
 ;
 //@loop FC_wait_for_slow 1
-//@  __CPROVER_assigns(@l3@, @p1@, @l1@, *g_w, g_ready_seen, g_sleeps, g_sec, g_nsec, g_clock_reads, g_clock_failed, g_first_sec, g_first_nsec)
-//@  __CPROVER_loop_invariant(((@l3@ & READY) != 0) == g_ready_seen)
+//@  __CPROVER_assigns(@l3:value@, @p1:timeout_ns@, @l1:spec@, *g_w, g_ready_seen, g_sleeps, g_sec, g_nsec, g_clock_reads, g_clock_failed, g_first_sec, g_first_nsec)
+//@  __CPROVER_loop_invariant(((@l3:value@ & READY) != 0) == g_ready_seen)
 //@  __CPROVER_loop_invariant(!g_ready_seen || (*g_w & READY))
-//@  __CPROVER_loop_invariant(g_ready_seen || ((@l3@ & ~READY) >= 1 && (*g_w & READY || (*g_w & ~READY) >= 1)))
+//@  __CPROVER_loop_invariant(g_ready_seen || ((@l3:value@ & ~READY) >= 1 && (*g_w & READY || (*g_w & ~READY) >= 1)))
 //@  __CPROVER_loop_invariant(g_sec >= 0 && g_sec < (1L << 32) && g_nsec >= 0 && g_nsec < 1000000000L && !g_clock_failed && g_clock_reads >= 1)
 //@end
 
